@@ -50,6 +50,7 @@ MAP = [
  ("independent statements depends on the hash seed", ["C15"]),
  ("explicit array bounds in a user type", ["C03"]),
  ("parentheses around quotient factors", ["C03"]),
+ ("insertion order of the phase map", ["C15"]),
 ]
 def main():
     log = subprocess.run(["git", "-C", "/repo", "log", "--reverse", "--format=%h %s"],
